@@ -286,7 +286,7 @@ fn run_decision(c: &DCase) -> DOut {
 }
 
 fn decision_hosts() -> Vec<String> {
-    let labels = ["a", "b", "ab", "xa"];
+    let labels = ["a", "b", "ab", "xa", "1a"];
     let mut v: Vec<String> = Vec::new();
     for l1 in labels {
         v.push(l1.to_string());
@@ -466,9 +466,8 @@ fn classify(v: Option<&str>) -> (u8, Option<(String, String, u16)>) {
                 && host.split('.').all(|l| !l.is_empty() && l.bytes().all(|b| b.is_ascii_lowercase() || b.is_ascii_digit()))
                 && host.bytes().any(|b| b.is_ascii_lowercase());
             if let (true, Some(p)) = (host_ok, port) {
-                if scheme == sl {
-                    return (K_VALID, Some((sl, host.to_string(), p)));
-                }
+                // the scheme is case-insensitive (RFC 3986 3.1): HTTP://, Https:// are the same schemes
+                return (K_VALID, Some((sl, host.to_string(), p)));
             }
         }
     }
@@ -636,7 +635,8 @@ fn proxy_value(var: usize, kind: &str) -> Option<String> {
         "empty" => Some(String::new()),
         "blank" => Some(" ".to_string()),
         "http" => Some(format!("http://p{var}h.test:31{var}0")),
-        "https" => Some(format!("https://p{var}s.test:32{var}0/")),
+        // the scheme of a URL is case-insensitive: a valid https proxy spelled in upper case
+        "https" => Some(format!("HTTPS://p{var}s.test:32{var}0/")),
         "socks" => Some(format!("socks5://p{var}k.test:1080")),
         "garbage" => Some("not a url".to_string()),
         _ => unreachable!(),
@@ -1084,7 +1084,7 @@ pub fn c11(ctx: &Ctx) -> Report {
     rep.set(
         "rule",
         format!(
-            "A: full product of {} hosts (all 1..3-label names over a,b,ab,xa + 3 IP literals + 3 names with a root dot; also spelled in upper case) x scheme http/https/ftp x proxies none/http/https/both x all no-proxy lists of length 0..2 over the entry alphabet, each through ProxySettingsBuilder+for_url, every http case (default port and :8080) also through send() under a scripted transport; non-trivial = a proxy is configured for the scheme and the list has a non-empty entry. B: full product of the value menus of the 8 variables, from_env() then for_url on {} probes (http/https x hosts a, x.a, xa, b, b.a, c, c.); non-trivial = at least one proxy variable holds a valid http(s) URL. All cases are distinct by construction.",
+            "A: full product of {} hosts (all 1..3-label names over a,b,ab,xa,1a + 3 IP literals + 3 names with a root dot; also spelled in upper case) x scheme http/https/ftp x proxies none/http/https/both x all no-proxy lists of length 0..2 over the entry alphabet, each through ProxySettingsBuilder+for_url, every http case (default port and :8080) also through send() under a scripted transport; non-trivial = a proxy is configured for the scheme and the list has a non-empty entry. B: full product of the value menus of the 8 variables, from_env() then for_url on {} probes (http/https x hosts a, x.a, xa, b, b.a, c, c.); non-trivial = at least one proxy variable holds a valid http(s) URL. All cases are distinct by construction.",
             decision_hosts().len(),
             PROBE_HOSTS.len() * PROBE_SCHEMES.len()
         ),
